@@ -574,7 +574,7 @@ Definition poisson1d_2 : crs QcS :=
   mkCrs 2 [[(0, qc 2 1); (1, qc (-1) 1)]; [(0, qc (-1) 1); (1, qc 2 1)]]%nat.
 
 (* 1-D Poisson (x) I_2, block_size 2, eps_strong = 1/4 (the witness of the former finding
-   C04-pointwise-lifting, fixed by /repo 2f75975 + 384f188): the pointwise aggregates are now the
+   C04-pointwise-lifting, fixed by /repo 0e81e11 + 09e5c12): the pointwise aggregates are now the
    lifted scalar ones *)
 Lemma pointwise_lifting_poisson :
   pwm (kron_id 2 poisson1d_2) 2 = Some (mabs poisson1d_2) /\
@@ -587,7 +587,7 @@ Proof. split; [|split]; vm_compute; reflexivity. Qed.
 (* ------------------------------------------------------------------ Ruge-Stuben: truncation *)
 (* symmetric weighted path 0 -1- 3 -1/2- 2 -1- 1 (graph Laplacian, all row sums zero); eps_strong = 1/4,
    eps_trunc = 1/2: the entry -1/2 = eps_trunc * (-1) of row 2 lies ON the threshold.  Witness of the former
-   finding C04-rs-truncation-tie (fixed by /repo 8384831): the entry is dropped AND counted in the
+   finding C04-rs-truncation-tie (fixed by /repo 241833b): the entry is dropped AND counted in the
    rescaling sum, the row of P sums to one again *)
 Definition rs_tie_A : crs QcS :=
   mkCrs 4 [[(0, qc 1 1); (3, qc (-1) 1)];
@@ -609,7 +609,7 @@ Lemma rs_trunc_tie_rescaled :
 Proof. vm_compute. repeat split; reflexivity. Qed.
 
 (* ------------------------------------------------------------------ Ruge-Stuben: no uninitialised read
-   (after /repo commit 8cfa879 connect() writes every S.val cell) *)
+   (after /repo commit 7bd138f connect() writes every S.val cell) *)
 Lemma rs_connect_junk_independent {S : Scalar} (eps eps_strong : S) (A : crs S) (j1 j2 : flags) :
   rs_connect eps eps_strong A j1 = rs_connect eps eps_strong A j2.
 Proof. reflexivity. Qed.
